@@ -8,28 +8,35 @@ from props import c14_trees as T
 ID = 'C14'
 LEVEL = 'proof'
 B = BLOCK['C14']
-TIE = {'core.PreConverted / PostConverted / FixedSeatCount / Conditioned / ByConstituency / PreApportioned / RemovedApportionment / '
-       'ByParty / MultistageDistributor / TieBreaking / PartyListEvaluator (evaluate methods)': 'correspondence (extracted run_impl with the '
-       'leaf evaluators and converters answered by the real objects through an oracle table)',
+TIE = {'core.PreConverted / PostConverted / FixedSeatCount / Conditioned / ByConstituency (incl. preselector) / PreApportioned / RemovedApportionment / '
+       'ByParty / MultistageDistributor / UnusedVotesDistributor / AdjustedSeatCount / AllowOverhang / LevelOverhang / TieBreaking / PartyListEvaluator / '
+       'VotingSystem (evaluate / calculate methods)': 'correspondence (extracted run_impl with the '
+       'leaf evaluators, converters, quota functions and calculator objects answered by the real objects through an oracle table)',
        'inspect.signature of every evaluate() / core.accepts_seats / accepts_prev_gains': 'compared with Wrappers.sig_of / acc_seats / acc_prev on every node of every generated tree',
        'Python argument binding': 'Wrappers.bind compared with CPython on generated signatures and calls',
-       'TieBreaking._replace_sel_ties / _replace_distr_ties, convert.VoteTotals / SubsettedVotes, util.add_dict_to_dict': 'correspondence (direct unit streams)'}
-RULE = ('corpus (zero-seat constituencies, omitted seat counts, seat dictionary vs fixed apportioner, PreApportioned around generic wrappers); '
+       'TieBreaking._replace_sel_ties / _replace_distr_ties, convert.VoteTotals / SubsettedVotes (code-shaped AND declarative definitions), util.add_dict_to_dict': 'correspondence (direct unit streams)'}
+RULE = ('corpus (zero-seat constituencies, omitted seat counts, seat dictionary vs fixed apportioner, PreApportioned around generic wrappers, unused votes with previous gains / '
+        'by constituency, adjusted seat counts with caps, seatless parts, preselector); '
         'random well-typed wrapper trees of depth <= 4 over real votelib leaves (Plurality, '
-        'HighestAverages d\'Hondt/Sainte-Lague, LargestRemainder hare, Absolute/Relative/Alternative/PreviousGain thresholds, VotesPerSeat, '
-        'ListOrderTieBreaker) and converters (VoteTotals, MergedDistributions, SelectionToDistribution, identity, halving); simple and '
+        'HighestAverages d\'Hondt/Sainte-Lague, LargestRemainder hare, QuotaDistributor, Absolute/Relative/Alternative/PreviousGain thresholds, VotesPerSeat, '
+        'ListOrderTieBreaker), converters (VoteTotals, MergedDistributions, SelectionToDistribution, identity, halving), quota functions (hare, droop, '
+        'hagenbach_bischoff, imperiali, constant) and seat count calculators (AllowOverhang, LevelOverhang, LevelOverhangByConstituency); simple and '
         'per-constituency votes with constructed ties; seats as int / per-constituency dict / fixed int or dict apportioner / distributor '
-        'apportioner / omitted, every seat specification (incl. a dictionary from the caller, an enclosing PreApportioned or FixedSeatCount) '
-        'against every apportioner kind; generic-signature wrappers (PreConverted, PostConverted, TieBreaking, FixedSeatCount; VotingSystem in '
-        'stream unembedded) at the constituency level, also directly below PreApportioned / RemovedApportionment / MultistageDistributor; '
+        'apportioner (seated or seatless) / omitted, every seat specification (incl. a dictionary from the caller, an enclosing PreApportioned or FixedSeatCount) '
+        'against every apportioner kind; generic-signature wrappers (PreConverted, PostConverted, TieBreaking, FixedSeatCount, VotingSystem) '
+        'at the constituency level, also directly below PreApportioned / RemovedApportionment / MultistageDistributor; UnusedVotesDistributor at depth 1 and 2 '
+        '(Fraction votes in later stages), AdjustedSeatCount as a later stage and at the root; '
         'prev_gains and max_seats (flat and nested), seat count positionally or by keyword. Each case: implementation '
         'vs extracted run_impl (oracle leaves), implementation vs the by-hand composition on the same leaf objects, run_spec vs by-hand. '
         'non-trivial = tree depth >= 2 or prev_gains/max_seats supplied or a tie / zero-seat constituency occurred; distinct by case hash')
-PARTIAL = ['UnusedVotesDistributor, VotingSystem, ByConstituency preselector, non-simple vote subsetters: not embedded in Model/Wrappers.v '
+PARTIAL = ['LevelOverhangByConstituency inside AdjustedSeatCount is a part answered by the real object (its calculate() is modelled in Model/OverhangByC.v for C15, '
+           'not inside the wrapper tree); ByConstituency with a preselector AND a distributor apportioner, non-simple vote subsetters: not embedded '
            '(implementation vs by-hand composition only)',
-           'shared parts (VoteTotals, SubsettedVotes, add_dict_to_dict, tie replacement) are modelled once and used by both semantics: '
-           'C14_compose is about argument forwarding and dispatch, the parts are tied by correspondence',
-           'C14_compose is proved for faithful trees (inspect-based dispatch = what the inspected part takes); the excluded class is a known finding']
+           'util.add_dict_to_dict at one level, tie replacement, the unused-vote arithmetic and the levelling loop are one definition used by both semantics '
+           '(tied by correspondence; the tie replacement characterised by separate theorems); VoteTotals / SubsettedVotes have a declarative spec-side '
+           'definition proved equal to the code-shaped one on every value',
+           'C14_compose is proved for faithful trees (inspect-based dispatch = what the inspected part takes); the excluded class is a known finding',
+           'a seat NUMBER reaching a seatless apportioner / a seat count reaching a seatless overall evaluator is excluded by seat_fits (refuted otherwise)']
 TRUSTED = ['harness/props/c14_trees.py: encoding of Python values, the by-hand composition used as the declarative clause']
 EXTRA_PROOF_FILES = []
 
@@ -1176,7 +1183,7 @@ def explore(ctx, widen=1):
     by_unit(ctx, 'bind', [c for c in bind_cases(ctx.rng, ctx.n(600, 6000) * widen) if bind_valid(c)])
     by_unit(ctx, 'tie-replace', tie_cases(ctx.rng, ctx.n(500, 5000) * widen))
     by_unit(ctx, 'parts', parts_cases(ctx.rng, ctx.n(300, 3000) * widen))
-    by_unit(ctx, 'boundary', gen_boundary(ctx.rng, ctx.n(1200, 8000) * widen))
+    by_unit(ctx, 'boundary', gen_boundary(ctx.rng, ctx.n(1920, 12800) * widen))
     by_unit(ctx, 'random-trees', gen_random(ctx.rng, ctx.n(3000, 24000) * widen))
     unembedded_checks(ctx, ctx.rng, ctx.n(900, 6000) * widen)
 
